@@ -233,6 +233,51 @@ def make_tar(path, files, root_prefix=None):
     return "".join(letters), offs + [end], (end, struct)
 
 
+def make_gz_boundary(path, rng):
+    """gzip file of a ustar archive [dir, 128 000-byte file | two more files] made of *two members*, the first one exactly
+    131072 bytes long (= BUFSZ of lib/sqfs/src/io/istream.c; stored deflate blocks padded with empty ones): the first
+    buffer the file stream reads ends between two members and between two tar entries.  Returns (path, entry letters,
+    length of the first member)"""
+    import struct, zlib
+    import gzip as _gz
+    buf = io.BytesIO()
+    with tarfile.open(fileobj=buf, mode="w", format=tarfile.USTAR_FORMAT) as tf:
+        def add(name, data=None):
+            ti = tarfile.TarInfo(name)
+            ti.mtime, ti.mode = 1000000000, 0o755 if data is None else 0o644
+            if data is None:
+                ti.type = tarfile.DIRTYPE
+            else:
+                ti.size = len(data)
+            tf.addfile(ti, io.BytesIO(data) if data is not None else None)
+        add("d")
+        add("d/a.bin", det_bytes("gzb%d" % rng.randint(0, 99), 250 * 512))
+        add("d/b.bin", det_bytes("gzb-b", rng.choice([700, 5000, 9000])))
+        add("c.txt", b"hello world\n")
+    T = buf.getvalue()
+    b = 252 * 512                      # end of the second entry; 10 + 5 * nblocks + b + 8 == 131072 has a solution (b = 4 mod 5)
+
+    def stored(data, final=False):
+        return bytes([1 if final else 0]) + struct.pack("<HH", len(data), len(data) ^ 0xFFFF) + data
+    out = bytearray(b"\x1f\x8b\x08\x00\x00\x00\x00\x00\x00\x03")
+    pos = 0
+    while pos < b:
+        n = min(65535, b - pos)
+        out += stored(T[pos:pos + n])
+        pos += n
+    while len(out) < 131072 - 8 - 5:
+        out += stored(b"")
+    out += stored(b"", final=True)
+    out += struct.pack("<II", zlib.crc32(T[:b]) & 0xFFFFFFFF, b & 0xFFFFFFFF)
+    if len(out) != 131072:
+        raise Infra("make_gz_boundary: cannot align the stream (%d)" % len(out))
+    out += _gz.compress(T[b:], mtime=0)
+    if _gz.decompress(bytes(out)) != T:
+        raise Infra("make_gz_boundary: stream does not decode")
+    Path(path).write_bytes(bytes(out))
+    return path, "nnnn", 131072
+
+
 # ------------------------------------------------------------------------------------------------ running one case
 class Case:
     """one tool invocation whose faults are enumerated"""
@@ -693,6 +738,11 @@ def gen_cases(ctx, d, rng, tools, thorough):
             g.write(fi.read())
     cases.append(Case("t2s-gz", "tar2sqfs", ["-b", str(BS), "-j", "1", "-x", "--no-skip", "-q", "@OUT@"], "file", stdin=str(d / "in.tar.gz"),
                       model=("packer", "t2s", "nq", 0, letters), cut=("gz", os.path.getsize(d / "in.tar.gz")), plan="sys+sample:60"))
+    # a compressed archive longer than the 128 KiB buffer of the file stream, in two gzip members, the first one exactly as
+    # long as that buffer and ending between two tar entries: a failing second read must be an error, not the end of the input
+    gzb, gzb_letters, gzb_m1 = make_gz_boundary(d / "in_b.tar.gz", rng)
+    cases.append(Case("t2s-gzb", "tar2sqfs", ["-b", str(BS), "-j", "1", "-q", "@OUT@"], "file", stdin=str(gzb),
+                      model=("packer", "t2s", "q", 0, gzb_letters), cut=("gz", os.path.getsize(gzb), [gzb_m1]), plan="sys+sample:25"))
     # archives with sparse members (old GNU format, PAX 0.1 and PAX 1.0 sparse maps): corpus/C13/tars
     sp = sorted((vlib.CORPUS / "C13" / "tars").glob("*.tar"))
     if len(sp) < 3:
@@ -727,7 +777,7 @@ def gen_cases(ctx, d, rng, tools, thorough):
     cases += [
         Case("s2t", "sqfs2tar", [str(img)], "stdout", model=("reader", "s2t", "-"), cut=("image",), stdout_faults=True),
         Case("s2t-c", "sqfs2tar", ["-c", scomp, str(img)], "stdout", model=("reader", "s2t", "c"), cut=("image",), stdout_faults=True),
-        Case("s2t-sub", "sqfs2tar", ["-d", "dir1", "-d", "dir2", "--keep-as-dir", "-X", "-s", str(img)], "stdout", model=("reader", "s2t", "-"),
+        Case("s2t-sub", "sqfs2tar", ["-d", "dir1", "-d", "dir2", "--keep-as-dir", "-r", "new/root", "-X", "-s", str(img)], "stdout", model=("reader", "s2t", "-"),
              plan="sys+sample:40"),
         Case("rd-u", "rdsquashfs", ["-u", "/", "-p", "@OUT@", str(img)], "tree", model=("reader", "rd", "up"), cut=("image",), stdout_faults=True),
         Case("rd-ua", "rdsquashfs", ["-u", "/", "-C", "-O", "-T", "-X", "-p", "@OUT@", str(img)], "tree", model=("reader", "rd", "up")),
@@ -1048,8 +1098,9 @@ def judge_cut(case, base, r, cutref):
     path, off = cut
     if case.cut[0] == "image":
         return False, "image"                # a shortened image never legitimately reads as something else
-    if case.cut[0] == "gz" and 0 < off < case.cut[1]:
-        return False, "mid-stream"           # a compressed stream that ends before its trailer must be refused (an empty input is an empty archive)
+    if case.cut[0] == "gz" and 0 < off < case.cut[1] and off not in (case.cut[2] if len(case.cut) > 2 else []):
+        return False, "mid-stream"           # a compressed stream that ends inside a member must be refused (an empty input is an
+                                             # empty archive; the end of a member is the end of a valid, shorter file: reference run)
     if case.cut[0] == "tar":
         bounds, end = case.cut[1], case.cut[2][0]
         if off < end and off not in bounds:
@@ -1572,7 +1623,8 @@ def bp_phase(ctx, report, stats, nworkers, env, acc):
 # check is not doing its job); quick tier
 FLOOR_SITES = ["openOut", "openHandle", "superWrite", "fstreeFromFile", "scanDir", "chdirPack", "nodePath", "packFile", "tarNext", "tarReadLink",
                "tarEntry", "postProcess", "procFinish", "serialize", "fragTable", "exportWrite", "idTable", "xattrFlush", "superRewrite", "pad",
-               "sIterCreate", "sEntry", "sFlush", "rOpen", "rSuper", "rHierarchy", "rRestore", "rFill", "rAttribs", "rSplice"]
+               "sIterCreate", "sEntry", "sFlush", "rOpen", "rSuper", "rHierarchy", "rRestore", "rFill", "rAttribs", "rSplice",
+               "rDescribe", "rDumpXattrs", "realpathOut"]
 FLOOR_RUNS = {"quick": 2500, "thorough": 6000}
 
 
